@@ -44,6 +44,8 @@ FeatureChecker::FeatureChecker(Document& document)
 bool FeatureChecker::visitTemplateBefore(template_t& templ)
 {
     // Only check features if template is actually used in the system
+    if (templ.is_instantiated)
+        visitFrame(templ.frame);  // channels declared locally or taken as parameters count as well
     return templ.is_instantiated;
 }
 
@@ -157,6 +159,8 @@ void FeatureChecker::visitFrame(const frame_t& frame)
 {
     for (size_t i = 0; i < frame.get_size(); ++i) {
         type_t t = frame.get_symbol(i).get_type();
+        while (t.is_array())  // arrays of channels
+            t = t.get_sub();
         if (t.is_channel() && !t.is(Constants::BROADCAST))
             supported_methods.stochastic = false;
     }
